@@ -132,4 +132,19 @@ PROPS = {
         "level_note": "Trusted: Coq kernel + vm_compute; crawdad common-prefix search modelled at list level (exercised through the lattice dumps); hand model tied by differential testing; 'every reachable start position' is checked by the oracle on dumps (for ignore_space=false), not stated as one theorem.",
         "technique": "machine-checked proof in Coq (code-shaped candidate generation = declarative specification) + checked model/code correspondence on lattice dumps",
     },
+    "C08": {
+        "theorems": ["c08_candidates_equiv", "c08_user_labelled", "c08_system_kept", "c08_replace", "c08_clear", "c08_accept_in_range"],
+        "check_targets": ["Check/C08Check.vo"],
+        "case_type": "tokcase",
+        "report_fn": "c08_report",
+        "n": {"quick": 700, "thorough": 15000},
+        "rule": TOK_RULE + "; C08: 90% of the cases carry a user lexicon (homographs of system words, longer/shorter overlapping surfaces, extreme costs, 1 in 25 rows with an id outside the connector -> must be rejected); every sentence is also tokenized on a system lexicon extended by the user rows, after load(other);load(user), after load(user);load(None), and on a dictionary that never had a user lexicon; non-trivial: a sentence with all five observations whose reported path contains a user-lexicon token",
+        "trusted_base": TOK_TRUSTED + [
+            "equality of the OPTIMAL COST between the user-lexicon dictionary and the extended system lexicon is observed on the implementation by the oracle (path cost incl. EOS connection) and follows in the model from c08_candidates_equiv + C02's optimality over the candidate set; the permutation-invariance of the Viterbi minimum is not yet a separate Coq theorem",
+        ],
+        "assumptions": ["ids of system/unknown entries inside the connector (checked by the builder, modelled in build_dict)"],
+        "level_text": "Coq theorems: c08_candidates_equiv (at every start position the candidates with a user lexicon are, as a multiset of (start, end, left id, right id, cost), those of the system lexicon extended by the same rows, including the effect on unknown-word suppression), c08_user_labelled / c08_system_kept (added words carry the user lexicon type and their row's parameters; system words stay), c08_replace / c08_clear (state machine of reset_user_lexicon: the second load replaces the first, None restores exactly the dictionary without one), c08_accept_in_range (an accepted user lexicon names only ids inside the connector). Tied to the code on every run: real tokens/lattices with user lexicon vs the model, candidate multisets from the lattice dump vs the declarative specification (user ++ system ++ unknown), and the oracle compares the real optimum with a real dictionary built from lex.csv ++ user.csv and the real replace / clear sequences token by token.",
+        "level_note": "Trusted: Coq kernel + vm_compute; hand model tied by differential testing; CSV parsing of the user lexicon is C11's subject; optimal-cost equality across the two dictionaries is checked on the implementation, not a separate theorem.",
+        "technique": "machine-checked proof in Coq (permutation of candidate multisets, dictionary state machine) + checked model/code correspondence and metamorphic oracle",
+    },
 }
